@@ -434,6 +434,7 @@ struct Ctx<P: Payload> {
     tabs: Arc<Tables<P>>,
     stream: Option<(usize, Pin<Box<ReceiveStream<'static, P>>>, HWaker, u32)>,
     stream_seq: u32,
+    bias: u8,
 }
 
 impl<P: Payload> Ctx<P> {
@@ -699,7 +700,7 @@ fn exec_op<P: Payload>(cx: &mut Ctx<P>, gi: u32, slot: usize, k: K, op: Op) -> R
                 &*fut as *const _ as usize,
                 std::mem::size_of::<kanal::SendFuture<'static, P>>(),
             );
-            let script = decode_script(op.a, op.b);
+            let script = decode_script(op.a, op.b, cx.bias);
             let (out, _) = drive(
                 gi,
                 script,
@@ -827,7 +828,7 @@ fn exec_op<P: Payload>(cx: &mut Ctx<P>, gi: u32, slot: usize, k: K, op: Op) -> R
                 &*fut as *const _ as usize,
                 std::mem::size_of::<kanal::ReceiveFuture<'static, P>>(),
             );
-            let script = decode_script(op.a, op.b);
+            let script = decode_script(op.a, op.b, cx.bias);
             let (out, _) = drive(
                 gi,
                 script,
@@ -861,7 +862,7 @@ fn exec_op<P: Payload>(cx: &mut Ctx<P>, gi: u32, slot: usize, k: K, op: Op) -> R
             let sid = (cx.t as u32) * 100 + cx.stream_seq;
             upd(gi, |o| o.stream_id = sid);
             let (s_slot, mut st, w, wid) = cx.stream.take().unwrap();
-            let script = decode_script(op.a, op.b);
+            let script = decode_script(op.a, op.b, cx.bias);
             let (out, wk) = drive(
                 gi,
                 script,
@@ -971,12 +972,13 @@ fn finish_opt<P: Payload>(gi: u32, o: Option<P>) {
     }
 }
 
-fn thread_body<P: Payload>(t: usize, ops: Vec<Op>, tabs: Arc<Tables<P>>) {
+fn thread_body<P: Payload>(t: usize, ops: Vec<Op>, tabs: Arc<Tables<P>>, bias: u8) {
     let mut cx = Ctx {
         t,
         tabs,
         stream: None,
         stream_seq: 0,
+        bias,
     };
     for (i, op) in ops.into_iter().enumerate() {
         if exec(|e| e.rescued) {
@@ -1239,7 +1241,8 @@ pub fn run_program<P: Payload>(prog: &Program) -> RunOut {
     for (t, ops) in prog.threads.iter().enumerate() {
         let ops = ops.clone();
         let tb = tabs.clone();
-        bodies.push(Box::new(move || thread_body::<P>(t, ops, tb)));
+        let bias = prog.script_bias;
+        bodies.push(Box::new(move || thread_body::<P>(t, ops, tb, bias)));
     }
     {
         let ops = prog.prober.clone();
